@@ -75,6 +75,17 @@ Theorem required_generates : forall u l G, wf_universe u = true -> mkgroup u l =
 Proof. exact required_generates. Qed.
 Print Assumptions required_generates.
 
+(* ---- elements: exactly the universe's elements whose required dimensions are all in the group; every
+        dimension of the group is one of them ---- *)
+Theorem elements_char : forall u l G x, mkgroup u l = GOk G ->
+  (In x (gelements G) <-> exists e, In e u /\ ename e = x /\ incl (ereq e) (gnames G)).
+Proof. exact elements_char_p. Qed.
+Print Assumptions elements_char.
+
+Theorem names_in_elements : forall u l G d, mkgroup u l = GOk G -> In d (gnames G) -> In d (gelements G).
+Proof. exact names_in_elements_p. Qed.
+Print Assumptions names_in_elements.
+
 (* ---- names respect the dependency order: whatever d depends on stands before d ---- *)
 Theorem names_topological : forall u l G l1 d l2 e x, wf_universe u = true -> mkgroup u l = GOk G ->
   gnames G = l1 ++ d :: l2 -> find_elem u d = Some e -> In x (deps e) -> x <> d -> In x l1.
